@@ -37,11 +37,14 @@ inductive Act (σ R : Type) where
   | compute (f : R → σ → σ)
   /-- the evaluation panics at this point -/
   | panic
+  /-- mutation of the shared state (the workspace): what the handlers that change the workspace do
+  under the write lock (`Workspace::add` / `replace` / `remove` / `clear` / `deploy`) -/
+  | mutate (g : σ → R → R)
 
 /-- Actions of the evaluation phase: read locks, computation — and panics. -/
 def Act.evalSafe {σ R : Type} : Act σ R → Bool
   | .acqRead _ | .relRead _ | .compute _ | .panic => true
-  | .acqWrite _ | .relWrite _ => false
+  | .acqWrite _ | .relWrite _ | .mutate _ => false
 
 structure LockSt where
   readers : Nat := 0
@@ -133,6 +136,8 @@ def stepThread {σ R : Type} (w : World σ R) (i : Nat) : Outcome σ R :=
       | .compute f =>
         .done { w with threads := w.threads.set i { t with todo := rest, st := f w.reg t.st } }
       | .panic => .done (unwind w i t .panicked)                      -- P1, P2
+      | .mutate g =>
+        .done { w with reg := g t.st w.reg, threads := w.threads.set i { t with todo := rest } }
 
 def applyStep {σ R : Type} (w : World σ R) (i : Nat) : World σ R :=
   match stepThread w i with
@@ -184,6 +189,7 @@ def finalHeld {σ R : Type} : List Nat → List (Act σ R) → List Nat
   | held, .acqWrite _ :: rest => finalHeld held rest
   | held, .relWrite _ :: rest => finalHeld held rest
   | held, .compute _ :: rest => finalHeld held rest
+  | held, .mutate _ :: rest => finalHeld held rest
 
 /-- A request of the service that evaluates (`server/src/server.rs`: `if let Ok(workspace) =
 data.workspace.read() { … evaluate … }`): the workspace lock `ws` is read-acquired, the evaluation
@@ -196,5 +202,104 @@ structure Accounted {σ R : Type} (w : World σ R) : Prop where
   readers : ∀ l, (w.locks l).readers = heldReads w.threads l
   endedFree : ∀ t ∈ w.threads, t.ending ≠ .running → t.heldR = []
   bracketed : ∀ t ∈ w.threads, finalHeld t.heldR t.todo = []
+
+/-! ## Writers beside evaluations: the handlers of the service (`server/src/server.rs:215-313`)
+
+Every handler acquires the one `RwLock<Workspace>` exactly once (`Dmn.Conc.server_lock_discipline`, over the
+regenerated table): the evaluating handlers for reading, the handlers that change the workspace (add /
+replace / remove / clear / deploy) for writing.  `ws` is the number of that lock. -/
+
+/-- What an evaluating handler does while it holds `ws` for reading: it computes, may panic, and takes /
+releases read locks other than `ws` (the registries of the evaluator). -/
+def Act.readerOk {σ R : Type} (ws : Nat) : Act σ R → Bool
+  | .acqRead l => l != ws
+  | .relRead l => l != ws
+  | .compute _ => true
+  | .panic => true
+  | .acqWrite _ => false
+  | .relWrite _ => false
+  | .mutate _ => false
+
+/-- What a handler that changes the workspace does while it holds `ws` for writing: it computes, mutates the
+workspace, may panic; it takes no lock that another thread can reach (the write acquisitions of
+`ModelEvaluator::new` act on the registries of the evaluator that is being built and is not yet stored in
+the workspace: `Dmn.Conc.writes_only_in_build`). -/
+def Act.writerOk {σ R : Type} : Act σ R → Bool
+  | .compute _ => true
+  | .mutate _ => true
+  | .panic => true
+  | .acqRead _ => false
+  | .relRead _ => false
+  | .acqWrite _ => false
+  | .relWrite _ => false
+
+/-- A request that changes the workspace (`if let Ok(mut workspace) = data.workspace.write() { … }`). -/
+def writeRequest {σ R : Type} (ws : Nat) (q : List (Act σ R)) : List (Act σ R) := .acqWrite ws :: (q ++ [.relWrite ws])
+
+/-- Where a request is: not started, inside its lock hold (as a reader / as the writer), or ended. -/
+inductive Shape {σ R : Type} (ws : Nat) (t : Thread σ R) : Prop where
+  | idleR (p : List (Act σ R)) (he : t.ending = .running) (hr : t.heldR = []) (hw : t.heldW = [])
+      (htodo : t.todo = evalRequest ws p) (hp : ∀ a ∈ p, a.readerOk ws = true)
+  | idleW (q : List (Act σ R)) (he : t.ending = .running) (hr : t.heldR = []) (hw : t.heldW = [])
+      (htodo : t.todo = writeRequest ws q) (hq : ∀ a ∈ q, a.writerOk = true)
+  | inR (p : List (Act σ R)) (he : t.ending = .running) (hc : t.heldR.count ws = 1) (hw : t.heldW = [])
+      (htodo : t.todo = p ++ [.relRead ws]) (hp : ∀ a ∈ p, a.readerOk ws = true)
+  | inW (q : List (Act σ R)) (he : t.ending = .running) (hr : t.heldR = []) (hw : t.heldW = [ws])
+      (htodo : t.todo = q ++ [.relWrite ws]) (hq : ∀ a ∈ q, a.writerOk = true)
+  | ended (htodo : t.todo = []) (hc : t.heldR.count ws = 0) (hw : t.heldW = [])
+
+/-- write guards held by all threads together -/
+def heldWrites {σ R : Type} (ts : List (Thread σ R)) : Nat := (ts.map (fun t => t.heldW.length)).sum
+
+/-- Number of actions still to be performed. -/
+def remaining {σ R : Type} (w : World σ R) : Nat := (w.threads.map (fun t => t.todo.length)).sum
+
+/-- The service with readers and writers: every thread is a request somewhere on its way; no lock but `ws` is
+ever write-held or poisoned; the state of `ws` is exactly what the guards held by the threads say; a writer
+excludes readers. -/
+structure Mixed {σ R : Type} (ws : Nat) (w : World σ R) : Prop where
+  shape : ∀ t ∈ w.threads, Shape ws t
+  others : ∀ l, l ≠ ws → (w.locks l).writer = false ∧ (w.locks l).poisoned = false
+  readers : (w.locks ws).readers = heldReads w.threads ws
+  writer : (if (w.locks ws).writer then 1 else 0) = heldWrites w.threads
+  excl : (w.locks ws).writer = true → (w.locks ws).readers = 0 ∧ (w.locks ws).poisoned = false
+
+/-- A request: an evaluation (`writes = false`: `evalRequest`) or a change of the workspace
+(`writes = true`: `writeRequest`), its body, and the private state it starts with. -/
+structure Call (σ R : Type) where
+  writes : Bool
+  body : List (Act σ R)
+  init : σ
+
+def Call.prog {σ R : Type} (ws : Nat) (c : Call σ R) : List (Act σ R) :=
+  if c.writes then writeRequest ws c.body else evalRequest ws c.body
+
+def Call.ok {σ R : Type} (ws : Nat) (c : Call σ R) : Prop :=
+  if c.writes then ∀ a ∈ c.body, a.writerOk = true else ∀ a ∈ c.body, a.readerOk ws = true
+
+def serviceWorld {σ R : Type} (ws : Nat) (r : R) (calls : List (Call σ R)) : World σ R :=
+  initWorld r (calls.map (fun c => (c.prog ws, c.init)))
+
+/-- every thread index below `n` occurs: in this stretch of the schedule every thread gets a turn -/
+def covers (n : Nat) (seg : List Nat) : Prop := ∀ i, i < n → i ∈ seg
+
+/-- A handler run alone on the workspace `r`: the workspace it leaves, its private state, how it ended (lock
+operations do nothing when nobody else is there). -/
+def aloneM {σ R : Type} (r : R) : List (Act σ R) → σ → R × σ × End
+  | [], s => (r, s, .running)
+  | .compute f :: rest, s => aloneM r rest (f r s)
+  | .mutate g :: rest, s => aloneM (g s r) rest s
+  | .panic :: _, s => (r, s, .panicked)
+  | .acqRead _ :: rest, s => aloneM r rest s
+  | .relRead _ :: rest, s => aloneM r rest s
+  | .acqWrite _ :: rest, s => aloneM r rest s
+  | .relWrite _ :: rest, s => aloneM r rest s
+
+/-- What a thread and the workspace will be when the thread is continued alone. -/
+def viewM {σ R : Type} (r : R) (t : Thread σ R) : R × σ × End :=
+  match t.ending with
+  | .running => aloneM r t.todo t.st
+  | .panicked => (r, t.st, .panicked)
+  | .lockError => (r, t.st, .lockError)
 
 end Dmn.ConcP
